@@ -94,7 +94,7 @@ def counts_for(tag, prop):
 # exhaustive native evaluation of a complete finite domain (kind X: not deductive, labelled as such)
 EXHAUSTIVE = {
     'C14': ['derived'],     # both classes, both entry points, 0..=0x10FFFF + boundary values: decision list over the UCD oracle incl. has_compat == (NFKC(cp) != cp)
-    'C01': ['derived'],     # no panic in classification for any scalar / surrogate / boundary value (has_compat is outside the verified set)
+    'C01': ['no_panic_cp'],  # classification of every scalar / surrogate / boundary value returns; only panics count
     'C08': ['lower_valid', 'derived'],
     'C09': ['bidi_probe'],
 }
